@@ -182,6 +182,15 @@ func findInlineNode(file *ast.File, comment *ast.Comment, fset *token.FileSet) (
 		return file.Decls[i].End() > commentPos
 	})
 
+	// A comment that trails a top-level declaration ending on the same line
+	// (e.g. "var x = T{} // @ignore CODE") starts after that declaration's end,
+	// so the search above finds the following declaration (or none): it is still inline.
+	if idx > 0 && fset.Position(file.Decls[idx-1].End()).Line == commentLine {
+		if fileContent := fset.File(commentPos); fileContent != nil {
+			return fileContent.LineStart(commentLine), comment.End(), true
+		}
+	}
+
 	// If no declaration found, not inline
 	if idx >= len(file.Decls) {
 		return 0, 0, false
